@@ -13,6 +13,7 @@ struct Case {
     int                  width{1};
     int                  alias{0}; // 1: strings also hold look-alike code points (jm::look_alike_cps); absent in older replay files
     int                  ls_n{0}, ls_esc{0}, ls_place{0}; // replay of a long-string enumeration case (ls_n > 0)
+    jm::Units            raw;                             // C07: a text (ASCII code points) that must be rejected, from the "deep" enumeration
 };
 
 struct Doc {
@@ -429,6 +430,113 @@ struct H {
     }
     static const char *name() { return "C06 RFC 8259 documents parse to the denoted value"; }
 #else
+    // "deep": documents nested 250 .. 2000 levels (arrays, objects, alternating) around a small core. Whether the library takes that
+    // depth is its own business (the undamaged document is only labelled); what is not one complete value is rejected all the same:
+    // proper prefixes (the first and last 60 and a stride in between), the document followed by a closer or a letter, and malformed cores
+    // at the deepest level - `[,]`, `{"a":}`, `[1,]`, `,`, nothing, `[}`, `{"a"}`, `{,}`, `[1 2]`, `[` - which the reference parser refuses.
+    static jm::Units deep_doc(unsigned d, unsigned shape, const char *core) {
+        jm::Units   u;
+        std::string close;
+        for (unsigned i = 0; i < d; ++i) {
+            const bool obj = shape == 1 || (shape == 2 && (i & 1) != 0) || (shape == 3 && i + 1 == d);
+            if (obj) {
+                for (const char *t = "{\"k\":"; *t; ++t) {
+                    u.push_back((unsigned char)*t);
+                }
+                close.push_back('}');
+            } else {
+                u.push_back('[');
+                close.push_back(']');
+            }
+        }
+        for (const char *t = core; *t; ++t) {
+            u.push_back((unsigned char)*t);
+        }
+        for (size_t i = close.size(); i != 0; --i) {
+            u.push_back((unsigned char)close[i - 1]);
+        }
+        return u;
+    }
+    static void enumerate(pbt::Ctx &ctx, unsigned shard, unsigned nshards, const std::string &what) {
+        if (what != "deep") {
+            fprintf(stderr, "unknown enumeration %s\n", what.c_str());
+            exit(3);
+        }
+        static const unsigned depths[] = {250, 254, 255, 256, 257, 300, 511, 512, 513, 600, 999, 1000, 1001, 1002, 1003, 1023, 1024, 1025, 1026, 1027, 1500, 2000};
+        static const char    *good[]   = {"1", "[]", "{}", "\"s\"", "[1,2]", "{\"a\":1}"};
+        static const char    *bad[]    = {"[,]", "{\"a\":}", "[1,]", ",", "", "[}", "{\"a\"}", "{,}", "[1 2]", "[", "[,1]", "{\"a\":1,}", "[[,]]", "{\"a\":[,]}"};
+        unsigned              idx      = 0;
+        uint64_t              taken = 0, refused = 0;
+        auto                  reject = [&](const jm::Units &u, const std::string &what_) -> bool {
+            ++ctx.evaluations;
+            ++ctx.nontrivial_counted;
+            ++ctx.nontrivial_total;
+            ctx.set_cur("raw=" + pbt::enc_units(u) + "\nwidth=1\nbytes=\n");
+            Qentem::MemoryRecord::Reset();
+            const bool ok = parses_undefined<char>(u) && parses_undefined<char16_t>(u);
+            if (!ok || Qentem::MemoryRecord::Live() != 0) {
+                ctx.failed    = true;
+                ctx.fail_cls  = ok ? "ledger" : "deep-malformed-accepted";
+                ctx.fail_msg  = what_ + (ok ? ": blocks still live" : ": accepted");
+                ctx.fail_text = "raw=" + pbt::enc_units(u) + "\nwidth=1\nbytes=\n";
+                ctx.write_stats();
+                return false;
+            }
+            return true;
+        };
+        for (unsigned d : depths) {
+            for (unsigned shape = 0; shape < 4; ++shape) {
+                if ((idx++ % nshards) != shard) {
+                    continue;
+                }
+                const std::string where = std::to_string(d) + " levels, shape " + std::to_string(shape);
+                for (const char *core : good) {
+                    jm::Units doc = deep_doc(d, shape, core);
+                    {
+                        jm::RefParser rp(doc, 1);
+                        jm::Node      n;
+                        if (!rp.parse_document(n)) {
+                            fprintf(stderr, "c07: the reference parser refuses a deep document: %s\n", rp.err.c_str());
+                            abort();
+                        }
+                    }
+                    (parses_undefined<char>(doc) ? refused : taken) += 1;
+                    const size_t stride = doc.size() / 40 + 1;
+                    for (size_t n = 0; n < doc.size(); ++n) {
+                        if (n > 60 && n + 60 < doc.size() && (n % stride) != 0) {
+                            continue;
+                        }
+                        if (!reject(jm::Units(doc.begin(), doc.begin() + long(n)), "proper prefix (" + std::to_string(n) + " of " + std::to_string(doc.size()) + " units) of a document of " + where)) {
+                            return;
+                        }
+                    }
+                    for (uint32_t tail : {uint32_t(']'), uint32_t('}'), uint32_t('x'), uint32_t(','), uint32_t('1')}) {
+                        jm::Units t = doc;
+                        t.push_back(tail);
+                        if (!reject(t, "document of " + where + " followed by a unit")) {
+                            return;
+                        }
+                    }
+                }
+                for (const char *core : bad) {
+                    jm::Units doc = deep_doc(d, shape, core);
+                    jm::RefParser rp(doc, 1);
+                    jm::Node      n;
+                    if (rp.parse_document(n)) {
+                        continue; // (a core that is fine in this position after all)
+                    }
+                    if (!reject(doc, std::string("malformed core ") + core + " under " + where)) {
+                        return;
+                    }
+                }
+            }
+        }
+        ctx.label("deep-document-taken", taken != 0);
+        ctx.label("deep-document-refused", refused != 0);
+        ctx.distinct_by_construction = true;
+        ctx.exhaustive               = true;
+        ctx.exhaustive_what          = "deep documents: 22 depths (250..2000) x 4 shapes x (6 cores: prefixes and trailing units; 14 malformed cores), sharded";
+    }
     static const char *name() { return "C07 all-or-nothing parsing"; }
 #endif
     static rc::Gen<Case> gen() {
@@ -463,6 +571,10 @@ struct H {
         kv.put("bytes", hex);
         kv.put("width", c.width);
         kv.put("alias", c.alias);
+        if (!c.raw.empty()) {
+            kv.put("raw", pbt::enc_units(c.raw));
+            return kv.text();
+        }
         if (c.ls_n > 0) {
             kv.put("long_string", std::to_string(c.ls_n) + "," + std::to_string(c.ls_esc) + "," + std::to_string(c.ls_place));
             return kv.text();
@@ -479,6 +591,9 @@ struct H {
         }
         c.width = int(kv.geti("width", 1));
         c.alias = int(kv.geti("alias", 0));
+        if (kv.has("raw")) {
+            c.raw = pbt::dec_units(kv.get("raw"));
+        }
         if (kv.has("long_string")) {
             sscanf(kv.get("long_string").c_str(), "%d,%d,%d", &c.ls_n, &c.ls_esc, &c.ls_place);
         }
@@ -494,6 +609,15 @@ struct H {
             ctx.nontrivial();
             if (!ok) {
                 ctx.fail("long-string-wrong", why);
+            }
+            return;
+        }
+#endif
+#ifdef VERIF_C07
+        if (!c.raw.empty()) {
+            ctx.nontrivial();
+            if (!parses_undefined<char>(c.raw) || !parses_undefined<char16_t>(c.raw)) {
+                ctx.fail("deep-malformed-accepted", "a text that is not one complete value was accepted: " + jm::show(c.raw).substr(0, 200));
             }
             return;
         }
